@@ -52,7 +52,7 @@ static std::set<std::string> CATALOGUE;
 static std::string normal_form(const std::string& s) { std::string r; for (unsigned char c : s) { if (c == '-' || c == ' ') continue; r.push_back((char)std::tolower(c)); } return r; }
 
 // ------------------------------------------------------------------------------------------------ operations
-enum OpT { INIT, SELECT, SET, GET, PURGE, INITPARAM, SANITY, DISPLAY, SETVEC, GETVEC, EVAL, LIST, GETNAME, GETDIM, DISPLAYVEC };
+enum OpT { INIT, SELECT, SET, GET, PURGE, INITPARAM, SANITY, DISPLAY, SETVEC, GETVEC, EVAL, LIST, GETNAME, GETDIM, DISPLAYVEC, CBFAIL };
 struct Op {
   OpT t; int reg = 0; bool c = false;  // c: through the extern "C" interface (double registry only)
   std::string h, s, p; LD v = 0; int n = 0; std::string fn, sig; int tuple = 0;
@@ -75,6 +75,7 @@ struct Op {
       case LIST: snprintf(b, sizeof b, "%slist_mms<%s>()", V, R); break;
       case GETNAME: snprintf(b, sizeof b, "%sget_name<%s>()", V, R); break;
       case GETDIM: snprintf(b, sizeof b, "%sget_dimension<%s>()", V, R); break;
+      case CBFAIL: snprintf(b, sizeof b, "%spass_func<%s>(callback that selects an unknown handle)", V, R); break;
     }
     return b;
   }
@@ -111,6 +112,7 @@ template <class S> static Outcome real_op_t(const Op& o) {
       case LIST: R.ret = std::to_string(masa_list_mms<S>()); break;
       case GETNAME: { std::string n = "#untouched#"; int st = masa_get_name<S>(&n); R.ret = std::to_string(st) + ":" + n; break; }
       case GETDIM: { int d = -77; int st = masa_get_dimension<S>(&d); R.ret = std::to_string(st) + ":" + std::to_string(d); break; }
+      case CBFAIL: { S r = pass_func<S>([](S x) -> S { masa_select_mms<S>("no-such-handle-in-callback"); return x; }, (S)1); R.ret = hexl((LD)r); break; }
     }
   };
   (void)b;
@@ -146,6 +148,7 @@ static Outcome real_op_c(const Op& o) {  // through the extern "C" interface
       case LIST: R.ret = std::to_string(masa_list_mms()); break;
       case GETNAME: { char buf[256]; memset(buf, '#', sizeof buf); strcpy(buf, "#untouched#"); int st = masa_get_name(buf); buf[255] = 0; R.ret = std::to_string(st) + ":" + buf; break; }
       case GETDIM: { int d = -77; int st = masa_get_dimension(&d); R.ret = std::to_string(st) + ":" + std::to_string(d); break; }
+      case CBFAIL: break;
     }
   };
 #ifdef MASA_EXCEPTIONS
@@ -177,6 +180,7 @@ static Outcome model_op(const Op& o, Model& M, std::string& note) {
     case LIST: R.ret = "0"; break;
     case GETNAME: if (!need_sel()) break; R.ret = "0:" + G.h[G.sel].name; break;
     case GETDIM: if (!need_sel()) break; R.ret = "0:" + std::to_string(G.h[G.sel].dim); break;
+    case CBFAIL: R.fatal = true; R.code = 1; break;  // no selection: fatal at once; with a selection: the callback's select of an unknown handle is fatal
   }
   return R;
 }
@@ -215,7 +219,10 @@ template <class S> static void observe_reg(std::string& o, bool has_sel_hint) {
   }
   if (selh != "?" && selh[0] != '(') capture([&] { masa_select_mms<S>(back); });
 }
-static std::string observe_real(const Model& M) { std::string o = "D:"; observe_reg<double>(o, M.r[0].has_sel); o += "|L:"; observe_reg<LD>(o, M.r[1].has_sel); return o; }
+static std::string observe_real(const Model& M) { std::string o = "D:"; observe_reg<double>(o, M.r[0].has_sel); o += "|L:"; observe_reg<LD>(o, M.r[1].has_sel);
+  // the library reports through std::cout: a call that leaves the stream in a failed state silences every later message of every instance
+  if (!std::cout.good()) o += "|STDOUT-STREAM-FAILED(rdstate=" + std::to_string((int)std::cout.rdstate()) + ")";
+  return o; }
 static void predict_reg(const Reg& G, std::string& o) {
   o += "n= " + std::to_string(G.h.size()) + ";";
   for (auto& kv : G.h) o += "[" + kv.first + "=" + kv.second.name + "]";
@@ -588,7 +595,15 @@ static Space make_space(const std::string& id) {
     S.solutions = {"euler_1d", "heateq_2d_steady_const"};
     S.ops = {opInit(0, "a", "euler_1d"), opInit(0, "b", "heateq_2d_steady_const"), opSel(0, "a"), opSel(0, "b"), opSet(0, "u_0", 7.5L), mk(GETNAME, 0), mk(LIST, 0),
              opInit(0, "a", "euler_1dd"), opInit(0, "b", "no_such_solution"), opInit(0, "c", "no_such_solution"), opSel(0, "nosuch")};
+    S.ops.push_back(mk(CBFAIL, 0));  // a fatal error raised inside a user callback and caught outside the evaluator
     if (g_tier) { S.ops.push_back(opInit(1, "a", "euler_1d")); S.ops.push_back(opInit(1, "a", "nosuch")); }
+  } else if (id == "c12h") {
+    // handle names whose order differs between comparators (lexicographic, natural/numeric, case-insensitive): re-initialisation and
+    // selection must find the entry whatever the registry's internal order
+    S.solutions = {"euler_1d", "heateq_2d_steady_const"}; S.key_last = false;
+    for (const char* h : {"h2", "h10", "h3", "H3"}) { S.ops.push_back(opInit(0, h, "euler_1d")); S.ops.push_back(opSel(0, h)); }
+    S.ops.push_back(opInit(0, "h3", "heateq_2d_steady_const")); S.ops.push_back(opInit(0, "h10", "heateq_2d_steady_const"));
+    S.ops.push_back(opSet(0, "u_0", 7.5L)); S.ops.push_back(mk(GETNAME, 0)); S.ops.push_back(mk(LIST, 0));
   } else if (id == "c16v") {
     // failed calls on handles that own large vectors: a failed masa_init on an existing (selected or not) handle must leave the vectors of
     // every instance untouched; 600 entries = 4800 bytes, beyond any small-buffer threshold
